@@ -31,10 +31,12 @@ EXPLANATION = (
 def op_config_lattice(ctx):
   """All OpQuantizationConfig values over presence x enum x bool of its fields."""
   CP = tables.enum(ctx, 'qtyping:ComputePrecision')
-  acts = [None] + common.tensor_cfgs(ctx, [8, 16], [True, False], ['TENSORWISE'], ['INT'])
+  # every field of TensorQuantizationConfig varies, including block_size with
+  # granularities that ignore it (a reload must not "normalise" such values)
+  acts = [None] + common.tensor_cfgs(ctx, [8, 16], [True, False], ['TENSORWISE'], ['INT'], block_sizes=(0, 32))
   weights = [None] + common.tensor_cfgs(
       ctx, [4, 8, 16], [True, False], ['TENSORWISE', 'CHANNELWISE', 'BLOCKWISE'],
-      ['INT', 'FLOAT'])
+      ['INT', 'FLOAT'], block_sizes=(0, 32))
   out = []
   rejected = 0
   for a, w, cp, ed, sk in itertools.product(acts, weights, CP, [False, True],
@@ -123,7 +125,7 @@ def r1_field_agreement(ctx):
                  'example': repr(lattice[1]) if len(lattice) > 1 else ''})
   # tensor config alone
   for t in common.tensor_cfgs(ctx, [4, 8, 16], [True, False],
-                              ['TENSORWISE', 'CHANNELWISE', 'BLOCKWISE'], ['INT', 'FLOAT']):
+                              ['TENSORWISE', 'CHANNELWISE', 'BLOCKWISE'], ['INT', 'FLOAT'], block_sizes=(0, 1, 32)):
     d = common.json_roundtrip(common.to_dict(ctx, t))
     outs = tables.call(ctx, f'{common.TCFG}.from_dict', [d])
     fd = ctx.repo.cls(common.TCFG).methods['from_dict']
